@@ -121,6 +121,7 @@ func C13(c *Ctx) {
 	}
 	c.positive("C13-2", "first-key-wins", ctl, []string{"runner.FirstKey"}, nil)
 	c.positive("C13-2", "unsorted-collection", ctl, []string{"runner.Keys"}, []string{"runner.SortedKeys"})
+	c.positionedWarnings("C13-4")
 	c.positive("C13-1", "goroutine", func(pc *Ctx) {
 		for _, in := range pc.concurrencyOps() {
 			pc.R.Check("C13-1", FnKey(in.Parent())+":concurrency", pc.InstrPos(in), false, "goroutine / channel operation")
